@@ -86,18 +86,51 @@ pub fn session(authorized: bool, scenario: u8) -> (Sim, Vec<Vec<Bytes>>) {
 
 /// Injects `msgs` as coming from the attacker and runs one server frame. Checks panic (by the caller's guard) and allocation.
 pub fn inject(sim: &mut Sim, msgs: &[(usize, Vec<u8>)]) -> Option<Fail> {
+    inject_with_honest(sim, msgs, false)
+}
+
+/// Same, optionally with genuine events of the well-behaved client queued BEHIND the attacker's messages on every
+/// event channel in the same server frame: a malformed message must not swallow what follows it.
+pub fn inject_with_honest(sim: &mut Sim, msgs: &[(usize, Vec<u8>)], with_honest: bool) -> Option<Fail> {
     let id = sim.clients[ATTACKER].id;
+    let honest = sim.clients[HONEST].id;
+    let mut expected: Vec<(CK, u32)> = Vec::new();
+    if with_honest {
+        for kind in [CK::Ev, CK::Unord, CK::Unrel, CK::Map, CK::Trig] {
+            sim.step(&Step::EmitC { client: HONEST, kind, refslot: 0 });
+            expected.push((kind, sim.seq));
+        }
+        sim.client_frame(HONEST);
+    }
     let mut total = 0usize;
     for (ch, bytes) in msgs {
         total += bytes.len();
         sim.server.world_mut().resource_mut::<RepliconServer>().insert_received(id, *ch, bytes.clone());
     }
+    if with_honest {
+        for ch in 0..sim.ckinds.len() {
+            while sim.deliver_c2s(HONEST, ch, 0) {}
+        }
+    }
+    let before = sim.from_log.len();
     sim.server_frame(true);
     let max = sim.last_update_max_alloc;
     let limit = 64 * 1024 + 64 * total;
     if max > limit {
         return Some(Fail::new("C06.allocation", format!("an allocation of {max} bytes was requested while processing {total} received bytes (limit {limit})")));
     }
+    if with_honest {
+        let seen: Vec<(CK, u32)> = sim.from_log[before..].iter().filter(|e| e.2 == honest).map(|e| (e.0, e.1)).collect();
+        for e in &expected {
+            if !seen.contains(e) {
+                return Some(Fail::new(
+                    "C06.swallowed",
+                    format!("event {e:?} of the well-behaved client, queued in the same frame behind the attacker's message, never reached server logic (seen {seen:?})"),
+                ));
+            }
+        }
+    }
+    sim.from_log.clear();
     sim.fail.take()
 }
 
@@ -226,7 +259,7 @@ pub fn run_mutated(c: &Case) -> Outcome {
             }
             msgs.push((ch, bytes));
         }
-        if let Some(f) = inject(&mut sim, &msgs) {
+        if let Some(f) = inject_with_honest(&mut sim, &msgs, true) {
             return Outcome::failed(f);
         }
         if let Some(f) = serve_check(&mut sim, fi as u32) {
@@ -284,7 +317,8 @@ fn run_exhaustive(unit: &str, authorized: bool, ch: usize, len: usize, first: st
         trace_case(unit, case);
         let mut out = guarded("C06", || {
             let mut o = Outcome::ok();
-            o.fail = inject(&mut sim, &[(ch, d.clone())]);
+            // every 16th string shares its frame with genuine events of the honest client queued behind it
+            o.fail = inject_with_honest(&mut sim, &[(ch, d.clone())], i % 16 == 0);
             o
         });
         count += 1;
@@ -369,7 +403,7 @@ impl Prop for C06 {
         let bytes: Vec<u8> = serde_json::from_value(case["bytes"].clone()).unwrap_or_default();
         let (mut sim, _) = session(authorized, 0);
         let mut out = Outcome::ok();
-        out.fail = inject(&mut sim, &[(ch, bytes)]).or_else(|| serve_check(&mut sim, 1));
+        out.fail = inject_with_honest(&mut sim, &[(ch, bytes)], true).or_else(|| serve_check(&mut sim, 1));
         out
     }
     fn rule(&self) -> String {
@@ -412,7 +446,7 @@ pub fn run_fuzz(data: &[u8]) -> Outcome {
         }
         msg.extend_from_slice(&data[3..]);
         let mut out = Outcome::ok();
-        out.fail = inject(&mut sim, &[(ch, msg)]).or_else(|| serve_check(&mut sim, 1));
+        out.fail = inject_with_honest(&mut sim, &[(ch, msg)], true).or_else(|| serve_check(&mut sim, 1));
         out
     })
 }
